@@ -300,10 +300,14 @@ class RuleRun:
                 I.refine_kinds(pre_root, pre_root.kinds - {"EqualExpression"})
         is_eq = pre_root.kinds == frozenset(["EqualExpression"])
         # ---- structure (C07)
+        payload: List[str] = []
         try:
-            problems = check_structure(I, heap, post_root, floating=local)
+            problems = check_structure(I, heap, post_root, floating=local, payload=payload)
         except StructureError as e:
             problems = [str(e)]
+        rep.obligations.append(
+            Obligation("C09", "closure/constant-payload", Verdict("proved" if not payload else "refuted"), "; ".join(payload[:3]))
+        )
         if heap.gap is not None:
             low = heap.gap.lower
             if "parent" in low.cur and low.cur["parent"] is not low.init.get("parent", object()):
@@ -508,8 +512,12 @@ def _paths_from(node):
 
 
 # --------------------------------------------------------------------------- structure
-def check_structure(I, heap: ExprHeap, root: Obj, floating=False) -> List[str]:
+def check_structure(I, heap: ExprHeap, root: Obj, floating=False, payload=None) -> List[str]:
+    """Links, arity, sharing, root (C07).  Payload defects of constants/variables (not part of
+    C07's statement, but of the WF invariant that C09's induction needs) are appended to `payload`."""
     problems: List[str] = []
+    if payload is None:
+        payload = []
     if floating:
         if "parent" in root.cur:
             problems.append(f"{root}.parent was touched although its context still points to it")
@@ -558,11 +566,19 @@ def check_structure(I, heap: ExprHeap, root: Obj, floating=False) -> List[str]:
             if kinds == frozenset(["ConstantExpression"]) and "value" in o.cur:
                 v = o.cur["value"]
                 if v is None or v is NAN or not (isinstance(v, (Num, int, float)) and not isinstance(v, bool)):
-                    problems.append(f"constant {o} holds {v!r}")
+                    payload.append(f"constant {o} holds {v!r}")
+                elif isinstance(v, Num):
+                    isnp, isfloat = v.tag[1], v.tag[0]
+                    from .values import b_and, b_not, zbool
+                    bad = z3.simplify(zbool(b_and(isnp, b_not(isfloat))))
+                    if not z3.is_false(bad):
+                        # may it be a fixed-width numpy integer?
+                        if I.ps._check(bad):
+                            payload.append(f"constant {o} may hold a fixed-width numpy integer")
             if kinds == frozenset(["VariableExpression"]) and "identifier" in o.cur:
                 v = o.cur["identifier"]
                 if not isinstance(v, (IdStr, str)):
-                    problems.append(f"variable {o} has identifier {v!r}")
+                    payload.append(f"variable {o} has identifier {v!r}")
         else:
             # mixed kind set: only possible for untouched input nodes
             if any(f in [w[1] for w in I.ps.writes if w[0] is o] for f in ("left", "right")):
